@@ -1293,11 +1293,13 @@ def gen_aborted_cfg(rng, i):
         b, b_ab = rng.choice(small), rng.choice(small)
     nb = -(-n_train // b_ab)
     it_ab = rng.randint(1, 3)
-    kind = rng.weighted([("train", 7), ("val", 2 if n_val > 0 else 0), ("after", 1)])
+    # fixed blocks (coverage of the exposing class must not depend on VERIF_SEED): of every 8 configurations 6 are interrupted in a
+    # training batch (5 of them in a batch j >= 1, i.e. after part of the epoch is done), 1 in the validation pass, 1 after the record
+    kind = ["train", "train", "train", "val" if n_val > 0 else "train", "train", "train", "after", "train"][i % 8]
     fault = {"iter": rng.below(it_ab), "kind": kind, "pos": 0, "where": "forward"}
     if kind == "train":
-        fault["pos"] = rng.randint(1, nb - 1) if (nb > 1 and rng.chance(0.8)) else 0
-        fault["where"] = rng.choice(["forward", "backward"])
+        fault["pos"] = rng.randint(1, nb - 1) if (nb > 1 and i % 8 != 4) else 0
+        fault["where"] = ["forward", "backward"][(i // 2) % 2]
     elif kind == "val":
         fault["pos"] = rng.below(-(-n_val // b_ab))
     c["abort"] = {"frozen": frozen, "first_reset": i % 3 != 0, "reset": i % 4 == 3, "b": b_ab, "iters": it_ab, "fault": fault,
